@@ -122,14 +122,16 @@ Definition rabin_action_k {T : Type} (k : bdd -> T) (zk : list bdd)
   let n_holds := length holds in
   let n_goals := length goals in
   let none := n_holds in
-  (* rho_1: descent in persistence basin *)
+  (* rho_1: descent in persistence basin.  Starts from the EMPTY basin and
+     runs over every z of zk (the code as repaired, finding F3: level 0 is
+     served too, by steps out of cpre(FALSE)) *)
   let count1 := mp (fun v => Nat.eqb (rgp v) (rg v) && Nat.eqb (rhp v) none) in
   let '(rho_1, _) :=
     fold_left (fun '(r, basin) z =>
       let zstar := ca basin None in
       let rim := band z (bnot basin) in
       (bor r (band (band rim zstar) count1), z))
-      (tl zk) (bfalse, hd bfalse zk) in
+      zk (bfalse, bfalse) in
   let '(rho_2, rho_3, rho_4, _) :=
     fold_left (fun '(rho_2, rho_3, rho_4, basin) '(z, yi, xijr) =>
       let cox_basin := step E S basin in
@@ -188,7 +190,7 @@ Lemma rabin_action_k_eq {T} (k : bdd -> T) zk yki xkijr :
   rabin_action_k k zk yki xkijr = k (rabin_action zk yki xkijr).
 Proof.
   unfold rabin_action, rabin_action_k. cbv zeta.
-  destruct (fold_left _ (tl zk) _) as [rho_1 b1].
+  destruct (fold_left _ zk _) as [rho_1 b1].
   destruct (fold_left _ (combine (combine zk yki) xkijr) _) as [[[r2 r3] r4] b2].
   reflexivity.
 Qed.
